@@ -5,6 +5,7 @@ import (
 	"encoding/json"
 	"errors"
 	"fmt"
+	"google.golang.org/protobuf/types/known/timestamppb"
 	"strings"
 	"time"
 
@@ -383,6 +384,24 @@ func (w *World) finishLine(line string, op Op, res *Result) string {
 	case "dl_sweep":
 		srcs, fw := attributeForwards(res.Stmts, res.Before, res.After)
 		line += " fw=" + srcFwdField(srcs, fw)
+	case "seek_time", "seek_snap":
+		if op.Via == "handler" && res.Resp == "ok" {
+			// the handler does not report counts: read them off the tables
+			na, nd := 0, 0
+			for id, b := range res.Before {
+				a := res.After[id]
+				if a == nil {
+					continue
+				}
+				if b.CompletedAt == nil && a.CompletedAt != nil {
+					na++
+				}
+				if b.CompletedAt != nil && a.CompletedAt == nil {
+					nd++
+				}
+			}
+			res.Resp = fmt.Sprintf("ok:%d,%d", na, nd)
+		}
 	}
 	if res.NoWk {
 		return line + " exp=" + res.Resp
@@ -576,6 +595,13 @@ func (w *World) execInner(op Op, res *Result) string {
 		return hdr("dl_sweep") + fmt.Sprintf(" max=%d victims=%s", op.Max, IdList(victims))
 	case "seek_time":
 		// op.D is the target instant in ns since the epoch
+		if op.Via == "handler" {
+			// through the gRPC Seek handler; the counts are read off the tables afterwards (finishLine)
+			_, err := w.Api().Sub.Seek(w.Ctx, &pubsubpb.SeekRequest{Subscription: SubName(op.Sub),
+				Target: &pubsubpb.SeekRequest_Time{Time: timestamppb.New(Epoch.Add(time.Duration(op.D)))}})
+			res.Err, res.Resp = err, grpcErrClass(err)
+			return hdr("seek_time") + fmt.Sprintf(" sub=%s time=%d", Enc(SubName(op.Sub)), op.D)
+		}
 		a := actions.NewSeekSubscriptionToTime(actions.SeekSubscriptionToTimeParams{Name: SubName(op.Sub), Time: Epoch.Add(time.Duration(op.D))})
 		err := w.run(a)
 		res.Err, res.Resp = err, errClass(err)
@@ -584,6 +610,12 @@ func (w *World) execInner(op Op, res *Result) string {
 		}
 		return hdr("seek_time") + fmt.Sprintf(" sub=%s time=%d", Enc(SubName(op.Sub)), op.D)
 	case "seek_snap":
+		if op.Via == "handler" {
+			_, err := w.Api().Sub.Seek(w.Ctx, &pubsubpb.SeekRequest{Subscription: SubName(op.Sub),
+				Target: &pubsubpb.SeekRequest_Snapshot{Snapshot: SnapName(op.Snap)}})
+			res.Err, res.Resp = err, grpcErrClass(err)
+			return hdr("seek_snap") + fmt.Sprintf(" sub=%s snap=%s", Enc(SubName(op.Sub)), Enc(SnapName(op.Snap)))
+		}
 		a := actions.NewSeekSubscriptionToSnapshot(actions.SeekSubscriptionToSnapshotParams{SubscriptionName: SubName(op.Sub), SnapshotName: SnapName(op.Snap)})
 		err := w.run(a)
 		res.Err, res.Resp = err, errClass(err)
